@@ -157,6 +157,14 @@ def run(c, facts, tier):
                 if last == "collect":
                     targs = ch[-1][2].get("targs") or []
                     sink_ty = targs[0] if targs else norm_ty(f.node["output"])
+                # a crate type alias stands for its definition (`type PrinterMap = HashMap<u32, Target>`)
+                for _ in range(4):
+                    if sink_ty is None:
+                        break
+                    exp_ = re.sub(r"\b([A-Z][A-Za-z0-9_]*)\b", lambda m_: ("(%s)" % norm_ty(facts.types[m_.group(1)].get("ty") or "")) if m_.group(1) in facts.types else m_.group(1), sink_ty)
+                    if exp_ == sink_ty:
+                        break
+                    sink_ty = exp_
                 ok = last in ORDER_FREE_SINKS or (last == "collect" and sink_ty is not None and re.search(r"Hash(Map|Set)|BTree(Map|Set)", sink_ty) is not None and not re.search(r"Vec|String", re.sub(r"Hash(Map|Set)<.*>|BTree(Map|Set)<.*>", "", sink_ty)))
                 det = "`%s` — chain %s ends in %s%s" % (src(x)[:70], ms, last, (" into " + sink_ty) if sink_ty else "")
                 if ok and last == "collect":
